@@ -12,13 +12,20 @@ LEAN_TARGETS = ["Gama.Props.C15"]
 DRIVERS = ["drv_matvec"]
 RULE = ("object scripts: random histories of ctor/copy/move/assign/move-assign/resize(reset)/write/fill/transpose/dtor "
         "on 8 slots of MemRep, Vec, Mat, SymMat with sizes 0..4 (plus every ordered size pair for b=a then write); "
+        "Mat histories with invert: in-place invert / transpose / *= / reset inside copy, move, assign chains between "
+        "objects of equal and different sizes (fixed chains for n=1..3 against 6 other shapes + random histories), every "
+        "object's value followed with exact rationals; non-trivial = a copy of an inverted object is inverted again; "
         "algebra: every operator on all dimension pairs 0..N (N=3 quick, 4 thorough), on shape pairs with equal element "
         "count but different shape (2x3/3x2, 1x4/2x2, 0x3/2x0, ...) for every member and non-member variant, and exhaustively on all operands "
         "with entries in {-1,0,1,2} for the tiny shapes, random small-integer / dyadic operands beyond; "
         "non-trivial = script with at least one copy or assignment between objects of different sizes, or an algebra "
         "line whose operands are non-empty; distinct by the text of the script / line")
 LEVEL_TEXT = ("Lean 4 theorems for all sizes and all operation histories: the heap model of MemRep refines independent "
-              "values and keeps an ownership invariant; index maps of Mat/SymMat are bijections; sums, both product "
+              "values and keeps an ownership invariant; a store of Mat objects (MemRep sub-object + every other persistent data "
+              "member, list regenerated from the headers; implicit memberwise copy; in-place transpose and in-place Gauss-Jordan "
+              "invert on the block the member pointer pentry addresses, its initialisation regenerated from Mat::invert) refines "
+              "the value-level semantics for every history, an operation never changes another object's value, and invert leaves "
+              "the two-sided inverse in its target; index maps of Mat/SymMat are bijections; sums, both product "
               "implementations and transposes equal the entrywise definitions; the BadRank guard of every operator "
               "(table regenerated from the headers on each run) implies conformity in shape, IS the guard of the operator model "
               "(45 of 52 entries: model throws BadRank iff the table's guard fires on the reported shapes) and, when it passes, every "
@@ -37,7 +44,7 @@ LEVEL_NOTE = ("Trusted: Lean kernel, statements in Props/C15.lean, harness/gener
               "numerically on every run.")
 TECHNIQUE = ("Lean 4 proof (refinement + invariant by induction over operation histories; entrywise algebra; loop invariants of "
              "Gauss-Jordan, Cholesky and the symmetric exchange inversion; Moore-Penrose from an SVD certificate) + translator "
-             "(dimension guards regenerated from the headers) + correspondence")
+             "(dimension guards, data members of Mat and the initialisation of Mat::pentry regenerated from the headers) + correspondence")
 TRUSTED = ["harness/c15_matvec.cpp: counting replacements of operator new[]/delete[] and a null-counting memcpy wrapper "
            "(observation only; the wrapper does not forward a null pointer)"]
 MODELLED = ["IEEE rounding (theorems over ordered fields; Float instance compared with tolerance)",
@@ -45,7 +52,10 @@ MODELLED = ["IEEE rounding (theorems over ordered fields; Float instance compare
             "SVD::svd (Golub-Reinsch iteration): per-run certificate only (all shapes incl. wide); pinv: formula modelled "
             "from (U,W,V,W_tol), run next to the C++ on the C++'s own decomposition; Moore-Penrose proved from the certificate",
             "std::sort (sortvec.h), iostream operators, GSO (gso.h, exercised through C01/C02)",
-            "negative dimensions passed to resize/reset/constructors other than MemRep(n<0)"]
+            "negative dimensions passed to resize/reset/constructors other than MemRep(n<0)",
+            "Mat object after invert() threw Singular (left half eliminated in place): the model stops the history there; "
+            "scripts re-define the object",
+            "the two temporaries of Mat::transpose() (allocated and released inside the call; the model consumes no addresses for them)"]
 ASSUMPTIONS = ["element access operator()(r,c) with indices out of range is outside the property (unchecked by design)"]
 
 KNOWN = {
@@ -421,6 +431,17 @@ class MatSim:
         self.live[i] = (r, c, [v for row in X for v in row])
         self.inverted.add(i)
 
+    def reset(self, i, r, c):
+        """reset(r, c) and define every element again (the content after a reallocation is indeterminate)"""
+        self.emit(f"m.reset {i} {r} {c}")
+        if (r, c) != self.live[i][:2]:
+            self.tags.add("reset_after_invert" if i in self.inverted else "reset")
+        vals = [[Fraction(self.rng.randint(-3, 3)) + (Fraction(4 * max(r, c)) if a == b else 0) for b in range(c)] for a in range(r)]
+        self.live[i] = (r, c, [v for row in vals for v in row])
+        for a in range(r):
+            for b in range(c):
+                self.emit(f"m.set {i} {a + 1} {b + 1} {H(float(vals[a][b]))}")
+
     def transpose(self, i):
         r, c, d = self.live[i]
         self.emit(f"m.transpose {i}")
@@ -467,6 +488,8 @@ def inv_chain_scripts(rng):
         for k, l in ((1, 1), (2, 2), (3, 3), (2, 3), (0, 0), (1, 3)):
             if (k, l) == (n, n):
                 continue
+            s = MatSim(rng); s.ctor(0, n, n); s.invert(0); s.reset(0, k, l); s.dump(); s.invert(0); s.dump()   # same object, new dimensions
+            s.copy(1, 0); s.reset(1, n, n); s.invert(1); s.dump(); out.append(s)
             s = MatSim(rng); s.ctor(0, n, n); s.invert(0); s.ctor(1, k, l); s.assign(1, 0); s.dump(); s.invert(1); s.dump()   # X(k,l) = Y(n,n) inverted
             out.append(s)
             s = MatSim(rng); s.ctor(0, n, n); s.invert(0); s.copy(2, 0); s.ctor(1, k, l); s.assign(2, 1); s.dump(); s.invert(2); s.dump()
@@ -496,8 +519,11 @@ def gen_inv_script(rng, maxlen):
             s.assign(rng.choice(alive), rng.choice(alive), rng.choice(["assign", "assign", "massign"]))
         elif r < 0.78 and alive:
             s.invert(rng.choice(alive))
-        elif r < 0.83 and alive:
+        elif r < 0.81 and alive:
             s.transpose(rng.choice(alive))
+        elif r < 0.84 and alive:
+            n = rng.choice([1, 2, 3])
+            s.reset(rng.choice(alive), n, n if rng.random() < 0.8 else rng.randint(0, 3))
         elif r < 0.87 and alive:
             s.scale(rng.choice(alive), rng.choice([Fraction(2), Fraction(-1), Fraction(1, 2)]))
         elif r < 0.93 and alive:
@@ -513,6 +539,38 @@ def gen_inv_script(rng, maxlen):
 def dump_values(slot_text):
     t = slot_text.split()
     return int(t[0]), int(t[1]), t[2:]
+
+
+def inv_oracle(lines_, expect, exact):
+    """value semantics on the answers of one Mat history; expect[k] = "ok" | "throw …" | {slot: [rows, cols, [p/q…]]}.
+    Returns None or (line index, what)."""
+    if len(lines_) != len(expect):
+        return (max(len(lines_) - 1, 0), "script stopped")
+    for li, (got, exp) in enumerate(zip(lines_, expect)):
+        if isinstance(exp, str):
+            if got != exp:
+                return (li, f"answered {got!r}, value semantics says {exp!r}")
+            continue
+        try:
+            live_, ub_, slots = parse_dump(got)
+            for sl in range(8):
+                if (slots[sl] is None) != (str(sl) not in exp):
+                    raise ValueError(f"slot {sl} liveness")
+                if str(sl) in exp:
+                    r_, c_, toks = dump_values(slots[sl])
+                    er, ec, ed = exp[str(sl)]
+                    if (r_, c_) != (er, ec) or len(toks) != len(ed):
+                        raise ValueError(f"slot {sl}: shape {r_}x{c_}, expected {er}x{ec}")
+                    for tk, q in zip(toks, ed):
+                        v, q = F(tk), Fraction(q)
+                        if (v != q) if exact else (abs(v - q) > Fraction(1, 10**9) * (1 + abs(q))):
+                            raise ValueError(f"slot {sl}: holds {float(v)!r}, value semantics says {float(q)!r} "
+                                             f"(objects: {', '.join(sorted(exp))})")
+            if ub_:
+                raise ValueError("memcpy with a null pointer")
+        except (ValueError, IndexError) as e:
+            return (li, str(e))
+    return None
 
 
 # ----------------------------------------------------------------------------- algebra
@@ -1086,37 +1144,13 @@ def correspond(ctx, corr):
             if not agree:
                 corr.disagree("invscript", ls, out, mrat[ci])
             # oracle: value semantics with exact rationals, on the implementation AND exactly on the Rat model
+            expect_js = [e if isinstance(e, str) else {str(k): [v[0], v[1], [str(q) for q in v[2]]] for k, v in e.items()} for e in expect]
+            payload["expect"] = expect_js
             problem = None
             for who, lines_, exact in (("implementation", out, False), ("model", mrat[ci], True)):
-                if len(lines_) != len(expect):
-                    problem = problem or (who, len(lines_) - 1, "script stopped")
-                    continue
-                for li, (got, exp) in enumerate(zip(lines_, expect)):
-                    if isinstance(exp, str):
-                        if got != exp:
-                            problem = problem or (who, li, f"answered {got!r}, value semantics says {exp!r}")
-                            break
-                        continue
-                    try:
-                        live_, ub_, slots = parse_dump(got)
-                        for sl in range(8):
-                            if (slots[sl] is None) != (sl not in exp):
-                                raise ValueError(f"slot {sl} liveness")
-                            if sl in exp:
-                                r_, c_, toks = dump_values(slots[sl])
-                                er, ec, ed = exp[sl]
-                                if (r_, c_) != (er, ec) or len(toks) != len(ed):
-                                    raise ValueError(f"slot {sl}: shape {r_}x{c_}, expected {er}x{ec}")
-                                for tk, q in zip(toks, ed):
-                                    v = F(tk)
-                                    if (v != q) if exact else (abs(v - q) > Fraction(1, 10**9) * (1 + abs(q))):
-                                        raise ValueError(f"slot {sl}: holds {float(v)!r}, value semantics says {float(q)!r} "
-                                                         f"(objects: {', '.join(str(k) for k in sorted(exp))})")
-                        if ub_:
-                            raise ValueError("memcpy with a null pointer")
-                    except ValueError as e:
-                        problem = problem or (who, li, str(e))
-                        break
+                pr = inv_oracle(lines_, expect_js, exact)
+                if pr and not problem:
+                    problem = (who,) + pr
             if problem and problem[0] == "implementation":
                 corr.fail("an object's value after a copy/assign/invert history is not the value computed by value semantics "
                           "(copies are not independent of their source / inv(A) is not the inverse)",
@@ -1437,7 +1471,7 @@ def correspond(ctx, corr):
             corr.inconclusive.append(f"no {want} matrix went through the SVD certificate")
 
     for tg, least in (("copy_of_inverted", 60), ("second_inversion", 60), ("assign_different_sizes_from_inverted", 15),
-                      ("assign_from_never_inverted", 15), ("singular", 5), ("badrank", 5)):
+                      ("assign_from_never_inverted", 15), ("singular", 5), ("badrank", 5), ("reset_after_invert", 15)):
         if corr.stats.get("invscript_" + tg, 0) < least:
             corr.inconclusive.append(f"fewer than {least} Mat histories with invert tagged {tg}")
     n_mixed = sum(1 for c in cases if c[1][0] == "script" and c[1][2])
@@ -1476,9 +1510,23 @@ def replay(ctx, payload):
     if not ops:
         print(json.dumps(payload.get("no_longer_checks"), indent=1)[:4000])
         return 0
+    try:
+        translate(ctx)          # the driver must be the model of THIS tree (Gen/MatMembers.lean, Gen/DimChecks.lean)
+    except TieBroken as e:
+        print("translator:", e)
+    ok, log = ctx.lake_build(DRIVERS)
+    if not ok:
+        print("lake build drv_matvec failed:", log[-400:])
     exe = ctx.build_cpp("c15_matvec", [ctx.verif / "harness" / "c15_matvec.cpp"])
     impl, crashes = run_cases(exe, [ops])
     model, _ = run_cases(ctx.driver("drv_matvec"), [ops], args=("rat",))
+    if inp.get("stream") == "invscript" and inp.get("expect") and not crashes:
+        pr = inv_oracle(impl[0], inp["expect"], False)
+        for l in ops[:40]:
+            print("  >", l[:300])
+        print("implementation:", *[l[:300] for l in impl[0][-6:]], sep="\n  ")
+        print("value semantics:", "agrees" if pr is None else f"line {pr[0]}: {pr[1]}")
+        return 0 if pr is None and all(lines_equal(a, b, rtol=1e-9, atol=1e-12) for a, b in zip(impl[0], model[0])) else 1
     for l in ops[:40]:
         print("  >", l[:300])
     print("implementation:", *[l[:300] for l in impl[0][-6:]], sep="\n  ")
